@@ -177,6 +177,10 @@ func genDocs(r *lib.Run, rng *lib.Rand) {
 			continue
 		}
 		toks := docTokens(text)
+		if isDoc(toks[0]) { // legacy text, text with its checksum line, text with a wrong checksum line
+			toks[0] = []string{"doc", "doc", "docok", "docok", "docok", "docbad"}[rng.Intn(6)]
+			r.Stat("class.new.sum-"+toks[0], 1)
+		}
 		obs := r.Do("new", append([]string{c.tok(), capTok}, toks...)...)
 		r.Stat("class.new."+cls, 1)
 		r.Stat("obs.new."+firstWord(obs), 1)
